@@ -60,6 +60,10 @@ def must_not_spin_shapes():
         'try {\n   s += /a+/;\n  }\n  catch (outofspace) {\n   s += /a+/;\n  }\n  "b";',
         'try {\n   try {\n    s += /a+/;\n    "b";\n   }\n   catch (outofspace) {\n    s += [66];\n    "a";\n   }\n  }\n  catch {\n   h();\n   "c";\n  }',
         'try {\n   "a";\n   s += [65];\n   s += [66];\n   s += [67];\n  }\n  catch (outofspace) {\n   s += [68];\n   "d";\n  }',
+        # the way back exists for some values of the variables only (condition point / conditional action in the handler)
+        'try {\n   s += /a+/;\n   "b";\n  }\n  catch (outofspace) {\n   if n == 9 {\n    "q";\n   }\n   elif n == 4 {\n    wait "b";\n   }\n  }',
+        'try {\n   s += /a+/;\n   "b";\n  }\n  catch (outofspace) {\n   if n == 9 {\n    finish;\n   }\n  }',
+        'try {\n   s += /a+/;\n   "b";\n  }\n  catch (outofspace) {\n   if n == 0 {\n    n = 1;\n   }\n   else {\n    "a";\n   }\n  }',
     ]
     exits = ['if n == 3 {\n   break;\n  }', 'if s.len == 2 {\n   break;\n  }', 'if n > 100 {\n   finish;\n  }', 'if n == 3 {\n   break;\n  }\n  else {\n   n = [n];\n  }', '']
     out = []
@@ -74,6 +78,18 @@ def must_not_spin_shapes():
         for wrap in ("out int n = 0;\nout str[3] s;\nhook h;\nparser {\n loop {\n  %s\n  if n == 3 {\n   break;\n  }\n }\n \"z\";\n}\n",
                      "out int n = 0;\nout str[3] s;\nhook h;\nparser {\n  %s\n \"z\";\n}\n"):
             out.append((wrap % body, [], [b"aaab", b"aaaaaac", b"aaaaaaaaaab", b"aaaac", b"aaaad", b"abz", b"aaaaaaaaaaaaaaaaaaaa"]))
+    # handlers whose way back consumes for some of the bytes the append takes and not for others: the round trip exists for a
+    # single byte value only (which one the compiler looks at first must not matter)
+    cls = "abcde"
+    for z in cls:
+        rest = cls.replace(z, "")
+        for hb in ('optional {\n    /[%s]/;\n   }\n   n = [n + 1];' % rest,
+                   'case {\n    /[%s]/ -> { n = [n + 1]; }\n    else -> { }\n   }' % rest,
+                   'try {\n    /[%s]/;\n   }\n   catch (nomatch) {\n    n = [n + 1];\n   }' % rest):
+            body = 'try {\n   s += /[%s]+/;\n   ",";\n  }\n  catch (outofspace) {\n   %s\n  }' % (cls, hb)
+            src = "out int n = 0;\nout str[3] s;\nhook h;\nparser {\n loop {\n  %s\n  if n == 9 {\n   break;\n  }\n }\n \"z\";\n}\n" % body
+            zz = z.encode()
+            out.append((src, [], [b"ab" + zz * 3 + b",", zz * 6, b"ab" + rest[:1].encode() * 4 + zz + b",", b"a,b,", rest.encode() + zz + zz]))
     return out
 
 
